@@ -169,7 +169,7 @@ global size_of usize == 8;
                             [[L: cells/each_cell_of_the_value_gets_one_add]]
                             data@ == add_range(d_in, data_start as int, i__ as int, f64_of(value)),
 //@loopend 2
-                            proof { assert(data@ =~= add_range(d_in, data_start as int, i__ + 1, f64_of(value))); }
+                            proof { assert(data@ =~= add_range(d_in, data_start as int, i__ + 1, f64_of(value))); } [[L: cells/cell_holds_its_old_sum_plus_the_value]]
 //@loopend 1
                     proof {
                         assert(next_val.end < wend); [[L: section/value_reaching_window_end_must_be_parked]]
@@ -416,7 +416,7 @@ impl ValueIter {
             }
 //@at /^\s*let mut max_data_len = 0;/ before
         proof {
-            assert(buf_of(self.next_sections).len() == 0);
+            assert(buf_of(self.next_sections).len() == 0); [[L: drain/new_window_only_when_the_buffer_is_empty]]
             assert(pending_out(*self) =~= opt_v(self.last_val));
             reveal(inputs_ok);
         }
@@ -510,6 +510,26 @@ impl ValueIter {
             }
 //@end
 }
+
+// ---------------- the constructor: establishes the state invariant for the first call ----------------
+//@extract fn bigtools/src/utils/merge.rs merge_sections_many
+//@rule R8
+//@sub /pub fn merge_sections_many<I, E>\(sections: Vec<I>\) -> impl Iterator<Item = Result<Value, E>> \+ Send\s*where\s*I: Iterator<Item = Result<Value, E>> \+ Send,/ => fn merge_sections_many(sections: Vec<VIter>, Ghost(limit): Ghost<int>) -> (r: ValueIter)
+//@sub /sections\.into_iter\(\)\.map\(\|s\| \(s, None\)\)\.collect\(\)/ => pair_with_none(sections) min=0
+//@sub /ValueIter \{/ => ValueIter { hist: Ghost(Hist { wins: Seq::empty(), emitted: Seq::empty(), limit: limit }),
+//@sig
+    requires
+        [[L: pre]]
+        // C15 input assumption: every stream sorted, disjoint, start <= end; no value ends beyond `limit`
+        inputs_ok(streams(sections@), 0, limit),
+    ensures
+        [[L: starts_at_base_zero_with_nothing_parked_buffered_or_held_back]]
+        !r.error && r.next_start == 0 && r.next_sections is None && r.last_val is None,
+        pends(r.sections@) == streams(sections@),
+        r.hist@.wins.len() == 0 && r.hist@.emitted.len() == 0 && r.hist@.limit == limit,
+        [[L: establishes_state_invariant]]
+        live_inv(r),
+//@end
 
 } // verus!
 fn main() {}
